@@ -18,9 +18,9 @@ cp $D/demo_test.go $W/$DEMODIR/zz_demo_test.go
 git apply $D/patch.diff
 ( cd $W/$DEMODIR && go test -vet=off -count=1 -run "$TESTS" . > /tmp/demo_mut.txt 2>&1 ); DM=$?
 rm -f $W/$DEMODIR/zz_demo_test.go
-VERIF_REPO=$W /verif/baseline_off.sh > /tmp/suite_mut.txt 2>&1; SU=$?
+VERIF_REPO=$W ${VDIR:-/verif}/baseline_off.sh > /tmp/suite_mut.txt 2>&1; SU=$?
 echo "demo on clean tree: rc=$DC (want 0) | demo with mutant: rc=$DM (want !=0) | suite with mutant: rc=$SU (want 0)"
-cd /verif && VERIF_REPO=$W python3 check.py $P --tier $TIER > /tmp/check_mut.txt 2>&1; RC=$?
+cd ${VDIR:-/verif} && VERIF_REPO=$W python3 check.py $P --tier $TIER > /tmp/check_mut.txt 2>&1; RC=$?
 echo "check $P $TIER exit=$RC"; grep -m4 "VIOLATION\|MACHINERY" /tmp/check_mut.txt; grep -A1 -m2 "VIOLATION" /tmp/check_mut.txt | grep "^   " | cut -c1-300
 cd /; git -C /repo worktree remove --force $W
 exit 0
